@@ -726,7 +726,23 @@ def quadrature_window(prog, ctx, gq):
             rest_ = [a_ for a_ in t.args if a_ != 1]
             return all((isinstance(a_, sp.Max) and any(b_ == 0 for b_ in a_.args)) or bounded01(a_) for a_ in rest_)
         if isinstance(t, sp.Piecewise):
-            return all(bounded01(e_) for e_, c_ in t.args)
+            # a branch value is in [0,1] on its own, or the earlier branches have taken the cases value > 1 and value < 0
+            # (the ternary form of the clamp; a NaN fails both comparisons and is passed on)
+            prior, ok_ = [], True
+            for e_, c_ in t.args:
+                rel = [r_ for c2 in prior for r_ in ([c2] if isinstance(c2, sp.core.relational.Relational) else [])]
+                core, lo_ok, hi_ok = e_, False, False
+                for _ in range(2):      # one side of the clamp may be a max(0, .) / min(1, .) around the value
+                    if isinstance(core, sp.Max) and len(core.args) == 2 and any(a_ == 0 for a_ in core.args):
+                        lo_ok, core = True, [a_ for a_ in core.args if a_ != 0][0]
+                    elif isinstance(core, sp.Min) and len(core.args) == 2 and any(a_ == 1 for a_ in core.args):
+                        hi_ok, core = True, [a_ for a_ in core.args if a_ != 1][0]
+                above = any(isinstance(r_, (sp.Gt, sp.Ge, sp.Lt, sp.Le)) and r_.gts == core and r_.lts == 1 for r_ in rel)
+                below = any(isinstance(r_, (sp.Gt, sp.Ge, sp.Lt, sp.Le)) and r_.lts == core and r_.gts == 0 for r_ in rel)
+                if not (bounded01(e_) or ((above or hi_ok) and (below or lo_ok))):
+                    ok_ = False
+                prior.append(c_)
+            return ok_
         if isinstance(t, sp.Add) and len(t.args) == 2 and 1 in t.args:
             other_ = [a_ for a_ in t.args if a_ != 1][0]
             return bounded01(-other_)
